@@ -235,6 +235,13 @@ def e_marks(doc, rnd):
     doc["structures"].append({"name": "VerifDeprecated", "properties": [prop("old", S, True, deprecated="use new"), prop("new", S, True, sinceTags=["3.18.0", "3.18.1 - changed"])], "deprecated": "gone soon"})
     host = struct(doc, optional_sites(doc, rnd, 1)[0])
     host["properties"] += [prop("verifProposed", ref("VerifProposed"), True, proposed=True), prop("verifDeprecated", ref("VerifDeprecated"), True)]
+    # plain (non-`or`) aliases carry marks too
+    doc["typeAliases"] += [
+        {"name": "VerifProposedAlias", "type": ref("VerifProposed"), "proposed": True, "since": "3.18.0"},
+        {"name": "VerifProposedList", "type": arr(ref("VerifProposed")), "proposed": True},
+        {"name": "VerifDeprecatedName", "type": S, "deprecated": "use string"},
+        {"name": "VerifProposedChoice", "type": {"kind": "or", "items": [ref("VerifProposed"), ref("VerifDeprecated")]}, "proposed": True},
+    ]
     add_request(doc, "verif/proposed", "VerifProposedRequest", ref("VerifProposed"), orn(ref("VerifProposed")), proposed=True, since="3.18.0")
     add_notification(doc, "verif/proposedNote", "VerifProposedNoteNotification", ref("VerifProposed"), proposed=True)
 
